@@ -75,6 +75,21 @@ func LoadUnit(repo, name string, bc BuildConfig) (*Unit, error) {
 	if bc.Tags != "" {
 		cfg.BuildFlags = []string{"-tags=" + bc.Tags}
 	}
+	// helpers the reference tree does not declare are inlined back into their callers (normalize.go)
+	if os.Getenv("VERIF_NO_NORMALISE") == "" {
+		n0 := len(normLog)
+		if ov := helperOverlay(repo, name, ud, env, bc.Tags); ov != nil {
+			cfg.Overlay = ov
+			if dd := os.Getenv("VERIF_DUMP_NORMALISED"); dd != "" {
+				for fn, b := range ov {
+					_ = os.WriteFile(filepath.Join(dd, filepath.Base(fn)), b, 0o644)
+				}
+			}
+		}
+		for _, l := range normLog[n0:] {
+			fmt.Fprintln(os.Stderr, "note:", l)
+		}
+	}
 	pkgs, err := packages.Load(cfg, ud.pkg)
 	if err != nil {
 		return nil, fmt.Errorf("load %s: %w", name, err)
